@@ -54,7 +54,7 @@ Local Notation T := (fl_trials fb).
 Local Notation S0 := (code_sem fb).
 
 Variable r : run.
-Hypothesis Hwf : forall g, g < n -> exists row, rlookup r g = Some row /\ length row = T.
+Hypothesis Hwf : forall g, In g (fl_act fb) -> exists row, rlookup r g = Some row /\ length row = T.
 Local Notation s := (tseq_of_run fb r).
 
 Lemma wf_nth g row : g < n -> rlookup r g = Some row -> nth g s [] = row.
@@ -100,12 +100,12 @@ Qed.
 
 (** the k-in-a-row family *)
 Lemma f1_kinarow (conform : list nat -> bool) (ck : ckind) f l wb :
-  f < n -> geom_ok fb wb = true ->
+  In f (fl_act fb) -> geom_ok fb wb = true ->
   (forall w, constraint_ok S0 s (CodeSem.mk_c ck f l [w]) = conform (Sem.runs l (Sem.slice (nth f s []) (fst w) (snd w))) ) ->
   (forall ws, constraint_ok S0 s (CodeSem.mk_c ck f l ws) = forallb (fun w => constraint_ok S0 s (CodeSem.mk_c ck f l [w])) ws) ->
   k_in_a_row fb conform f l wb r = ROk (constraint_ok S0 s (CodeSem.mk_c ck f l (CodeSem.windows_of fb wb))).
 Proof.
-  intros Hf Hg Hone Hall. destruct (Hwf f Hf) as [row [Hr Hlen]].
+  intros Ha Hg Hone Hall. pose proof (act_lt fb HF f Ha) as Hf. destruct (Hwf f Ha) as [row [Hr Hlen]].
   unfold k_in_a_row, row_of. rewrite Hr. cbn [of_opt rbind].
   unfold geom_ok in Hg. unfold CodeSem.windows_of.
   destruct (map_block_trial_ranges fb wb) as [rs|] eqn:Ers; [|discriminate]. cbn [of_opt rbind].
@@ -115,11 +115,11 @@ Proof.
   cbn [rbind]. rewrite (Hone w). rewrite (wf_nth f row Hf Hr). reflexivity.
 Qed.
 
-Lemma f1_pin index f l wb : f < n -> geom_ok fb wb = true -> geometry_sustain fb wb f = 1 ->
+Lemma f1_pin index f l wb : In f (fl_act fb) -> geom_ok fb wb = true -> geometry_sustain fb wb f = 1 ->
   constraint_conforms fb r (FPin index f l wb) =
   ROk (constraint_ok S0 s (CodeSem.mk_c (KPin index 1) f l (CodeSem.windows_of fb wb))).
 Proof.
-  intros Hf Hg Hsu. destruct (Hwf f Hf) as [row [Hr Hlen]].
+  intros Ha Hg Hsu. pose proof (act_lt fb HF f Ha) as Hf. destruct (Hwf f Ha) as [row [Hr Hlen]].
   cbn [constraint_conforms]. unfold row_of. rewrite Hr. cbn [of_opt rbind].
   unfold geom_ok in Hg. unfold CodeSem.windows_of.
   destruct (map_block_trial_ranges fb wb) as [rs|] eqn:Ers; [|discriminate].
@@ -158,18 +158,18 @@ Proof.
   rewrite (wf_nth f row Hf Hr). reflexivity.
 Qed.
 
-Lemma f1_sequential f : f < n -> 0 < nlevels fb f ->
+Lemma f1_sequential f : In f (fl_act fb) -> 0 < nlevels fb f ->
   constraint_conforms fb r (FSequential f) =
   ROk (constraint_ok S0 s (CodeSem.mk_c (KSequential (CodeSem.pre_of fb f) (sustain_of fb f)) f 0 [])).
 Proof.
-  intros Hf Hnl. destruct (Hwf f Hf) as [row [Hr Hlen]].
+  intros Ha Hnl. pose proof (act_lt fb HF f Ha) as Hf. destruct (Hwf f Ha) as [row [Hr Hlen]].
   cbn [constraint_conforms]. rewrite f1_factor_preamble. cbn [rbind]. unfold row_of. rewrite Hr. cbn [of_opt rbind].
   rewrite f1_pre_of. unfold sustain. rewrite (f0_sustain_of fb HF). cbn [Z.to_nat].
   unfold constraint_ok, CodeSem.mk_c. cbn [k_kind k_factor k_level k_windows].
   rewrite (wf_nth f row Hf Hr).
   assert (Hfd : exists fd, nth_error (s_factors S0) f = Some fd /\ f_nlevels fd = nlevels fb f).
   { destruct (nth_error (s_factors S0) f) as [fd|] eqn:E.
-    - exists fd. split; [reflexivity|]. apply (f0_sem_factor fb HF f fd E).
+    - exists fd. split; [reflexivity|]. apply (f0_sem_factor fb HF f fd Ha E).
     - apply nth_error_None in E. rewrite (f0_sem_factors_length fb HF) in E. lia. }
   destruct Hfd as [fd [Hfd Hnfd]]. rewrite Hfd, Hnfd. rewrite (f0_sem_trials fb HF).
   set (nl := nlevels fb f) in *.
@@ -191,54 +191,54 @@ Proof.
   rewrite (G (S T) 0) by lia. rewrite Nat.sub_0_r. f_equal; try (apply forallb_ext'; intros t; reflexivity).
 Qed.
 
-Lemma f1_exclude f l : f < n ->
+Lemma f1_exclude f l : In f (fl_act fb) ->
   constraint_conforms fb r (FExclude f l) = ROk (constraint_ok S0 s (CodeSem.mk_c KExclude f l [])).
 Proof.
-  intros Hf. destruct (Hwf f Hf) as [row [Hr Hlen]].
+  intros Ha. pose proof (act_lt fb HF f Ha) as Hf. destruct (Hwf f Ha) as [row [Hr Hlen]].
   cbn [constraint_conforms]. unfold row_of. rewrite Hr. cbn [of_opt rbind]. f_equal.
   unfold constraint_ok, CodeSem.mk_c. cbn [k_kind k_factor k_level]. rewrite (wf_nth f row Hf Hr).
   rewrite <- MismatchProofs.existsb_count_level. reflexivity.
 Qed.
 
 (** every constraint of the fragment *)
-Lemma f1_conform k : constraint_f1 fb k = true ->
+Lemma f1_conform k : constraint_f2 fb k = true ->
   constraint_conforms fb r k = ROk (forallb (constraint_ok S0 s) (CodeSem.code_constraint fb k)).
 Proof.
-  intros Hk. destruct k; cbn [constraint_f1] in Hk; try discriminate; try reflexivity.
+  intros Hk. destruct k; cbn [constraint_f2] in Hk; try discriminate; try reflexivity.
   - (* AtMost *)
-    apply andb_prop in Hk. destruct Hk as [Hk Hg]. apply andb_prop in Hk. destruct Hk as [Hf _]. apply Nat.ltb_lt in Hf.
+    apply andb_prop in Hk. destruct Hk as [Hk Hg]. apply andb_prop in Hk. destruct Hk as [Hf _]. apply (isact_In fb HF) in Hf.
     cbn [constraint_conforms CodeSem.code_constraint forallb]. rewrite andb_true_r.
     apply (f1_kinarow _ (KAtMost k) f l wb Hf Hg).
     + intros w. unfold constraint_ok, CodeSem.mk_c. cbn. rewrite andb_true_r. reflexivity.
     + intros ws. unfold constraint_ok, CodeSem.mk_c. cbn. apply forallb_ext'. intros w. rewrite andb_true_r. reflexivity.
   - (* AtLeast *)
-    apply andb_prop in Hk. destruct Hk as [Hk Hg]. apply andb_prop in Hk. destruct Hk as [Hf _]. apply Nat.ltb_lt in Hf.
+    apply andb_prop in Hk. destruct Hk as [Hk Hg]. apply andb_prop in Hk. destruct Hk as [Hf _]. apply (isact_In fb HF) in Hf.
     cbn [constraint_conforms CodeSem.code_constraint forallb]. rewrite andb_true_r.
     apply (f1_kinarow _ (KAtLeast k) f l wb Hf Hg).
     + intros w. unfold constraint_ok, CodeSem.mk_c. cbn. rewrite andb_true_r. reflexivity.
     + intros ws. unfold constraint_ok, CodeSem.mk_c. cbn. apply forallb_ext'. intros w. rewrite andb_true_r. reflexivity.
   - (* ExactlyK *)
-    apply andb_prop in Hk. destruct Hk as [Hk Hg]. apply andb_prop in Hk. destruct Hk as [Hf _]. apply Nat.ltb_lt in Hf.
+    apply andb_prop in Hk. destruct Hk as [Hk Hg]. apply andb_prop in Hk. destruct Hk as [Hf _]. apply (isact_In fb HF) in Hf.
     cbn [constraint_conforms CodeSem.code_constraint forallb]. rewrite andb_true_r.
     apply (f1_kinarow _ (KExactlyK k) f l wb Hf Hg).
     + intros w. unfold constraint_ok, CodeSem.mk_c. cbn. rewrite andb_true_r.
       rewrite MismatchProofs.sum_runs. reflexivity.
     + intros ws. unfold constraint_ok, CodeSem.mk_c. cbn. apply forallb_ext'. intros w. rewrite andb_true_r. reflexivity.
   - (* ExactlyKInARow *)
-    apply andb_prop in Hk. destruct Hk as [Hk Hg]. apply andb_prop in Hk. destruct Hk as [Hf _]. apply Nat.ltb_lt in Hf.
+    apply andb_prop in Hk. destruct Hk as [Hk Hg]. apply andb_prop in Hk. destruct Hk as [Hf _]. apply (isact_In fb HF) in Hf.
     cbn [constraint_conforms CodeSem.code_constraint forallb]. rewrite andb_true_r.
     apply (f1_kinarow _ (KExactlyInARow k) f l wb Hf Hg).
     + intros w. unfold constraint_ok, CodeSem.mk_c. cbn. rewrite andb_true_r. reflexivity.
     + intros ws. unfold constraint_ok, CodeSem.mk_c. cbn. apply forallb_ext'. intros w. rewrite andb_true_r. reflexivity.
   - (* Exclude *)
-    apply andb_prop in Hk. destruct Hk as [Hf _]. apply Nat.ltb_lt in Hf.
+    apply andb_prop in Hk. destruct Hk as [Hf _]. apply (isact_In fb HF) in Hf.
     cbn [CodeSem.code_constraint forallb]. rewrite andb_true_r. apply f1_exclude. exact Hf.
   - (* Pin *)
     apply andb_prop in Hk. destruct Hk as [Hk Hsu]. apply andb_prop in Hk. destruct Hk as [Hk Hg].
-    apply andb_prop in Hk. destruct Hk as [Hf _]. apply Nat.ltb_lt in Hf. apply Nat.eqb_eq in Hsu.
+    apply andb_prop in Hk. destruct Hk as [Hf _]. apply (isact_In fb HF) in Hf. apply Nat.eqb_eq in Hsu.
     cbn [CodeSem.code_constraint forallb]. rewrite andb_true_r. rewrite Hsu. apply f1_pin; assumption.
   - (* Sequential *)
-    apply andb_prop in Hk. destruct Hk as [Hf Hnl]. apply Nat.ltb_lt in Hf. apply Nat.ltb_lt in Hnl.
+    apply andb_prop in Hk. destruct Hk as [Hf Hnl]. apply (isact_In fb HF) in Hf. apply Nat.ltb_lt in Hnl.
     cbn [CodeSem.code_constraint forallb]. rewrite andb_true_r. apply f1_sequential; assumption.
 Qed.
 
